@@ -654,6 +654,25 @@ func c15Check(c c15Case) *Violation {
 				if el, _ := r.elems(c.L); len(el) == 0 {
 					sites[r.head()] = true
 				}
+				// a bound that falls exactly on the junction of two segments of a multi-segment region is kept by
+				// Resize as an empty boundary segment, i.e. as a zero-length site at that junction: same open question
+				if len(r.segs) > 1 && r.mod != "" {
+					lo, hi := r.bounds()
+					acc := 0
+					order := r.segs
+					if r.comp {
+						order = make([][2]int, len(r.segs))
+						for i := range r.segs {
+							order[i] = r.segs[len(r.segs)-1-i]
+						}
+					}
+					for _, sg := range order[:len(order)-1] {
+						acc += sg[1] - sg[0]
+						if lo == acc || hi == acc {
+							sites[-1-acc] = true
+						}
+					}
+				}
 			}
 			if len(sites) > 0 {
 				skipCase("invert-with-zero-length-site(weaker check)")
